@@ -64,6 +64,8 @@ class _SolverBase(Contract):
     n = 2
     max_paths = 60
     feas_timeout = 0.8     # branch-feasibility queries over uninterpreted functions time out anyway: unknown keeps the path
+    replayable = False     # inputs are abstract matrices and FK / Jacobian / log are uninterpreted: a counter-model has no
+    #                        native counterpart (violations are reported with no-failing-input-found)
     shape_bound = 'chains of 2 joints (the invariant itself is independent of the chain length)'
 
     def inputs(self, g):
